@@ -288,15 +288,47 @@ def build_regular(hjmod, n, H, Ls, perm):
     return pre
 
 
+# Which column the implementation remembers as "the" best column when the same height is cleared twice (possible only in a
+# jump-off, where the bar may return to an earlier height): 'first' or 'last'.  It is an internal field (highest_cleared_index), not
+# an observable of any property, so the pre-state families follow whatever the code under test does (probed concretely once per
+# run, probe_hci_policy) - the observable clauses (best height, places from the cards alone) then judge the consequences.
+HCI_POLICY = 'first'
+
+HCI_PROBE = r"""
+import sys
+from decimal import Decimal
+from athlib.highjump import HighJumpCompetition
+c = HighJumpCompetition()
+for b in 'AB':
+    c.add_jumper(bib=b)
+c.set_bar_height(Decimal('1.80')); c.cleared('A'); c.cleared('B')
+c.set_bar_height(Decimal('1.85'))
+for i in range(3):
+    c.failed('A'); c.failed('B')
+assert c.state == 'jumpoff', c.state
+c.set_bar_height(Decimal('1.80')); c.cleared('A')
+print('HCI', c.jumpers_by_bib['A'].highest_cleared_index)
+"""
+
+
+def probe_hci_policy(plain):
+    """'last' if a clearance at a bar equal to the best moves highest_cleared_index to the later column, else 'first'"""
+    global HCI_POLICY
+    code, out = plain.run_script(HCI_PROBE)
+    HCI_POLICY = 'last' if 'HCI 2' in out else 'first'
+    return HCI_POLICY
+
+
 def best_greatest(card, heights):
-    """(best height, index) = the greatest height among the columns that end with o; (0, -1) if none.  Heights need not rise."""
+    """(best height, index) = the greatest height among the columns that end with o; (0, -1) if none.  Heights need not rise.
+    Among several columns of that height the index follows HCI_POLICY."""
     best = z3.IntVal(0)
     idx = z3.IntVal(-1)
     for i, col in enumerate(card):
         n, cs = att_terms(col)
         lastc = col.last() if isinstance(col, AttStr) else (z3.IntVal(LETTERS.index(col[-1])) if col else z3.IntVal(0))
         ends_o = z3.And(n > 0, lastc == O)
-        better = z3.And(ends_o, z3.Or(idx < 0, heights[i] > best))
+        better = z3.And(ends_o, z3.Or(idx < 0, (heights[i] >= best) if HCI_POLICY == 'last' else (heights[i] > best)))
         best = z3.If(better, heights[i], best)
         idx = z3.If(better, z3.IntVal(i), idx)
     return best, idx
